@@ -42,6 +42,9 @@ def generate(tier, seed):
         rng.shuffle(order)
         c['names'] = [c['names'][i] for i in order]
         c['flux'] = [c['flux'][i] for i in order]
+        if c.get('band_orders'):      # the model list changed: draw the per-band row orders again
+            nm_ = len(c['names'])
+            c['band_orders'] = [rng.sample(list(range(nm_)), nm_) for _ in c['wav']]
         # in half of the cases the Fitter has already fitted 1-2 other sources (rows must still describe one model each)
         if k % 2:
             c['warmup'] = [fitcase.gen_source(rng, len(c['wav']), min_fitted=2 if mode == '2d' else 1) for _ in range(rng.randint(1, 2))]
